@@ -308,7 +308,7 @@ def gen_gamma_sample(nrng, n):
     dry = float(nrng.uniform(0.05, 0.95))
     wet = nrng.gamma(shape, scale, size=n)
     z = nrng.uniform(size=n) < dry
-    z[0], z[1] = True, False  # dry fraction strictly inside (0,1)
+    z[0], z[1:6] = True, False  # dry fraction strictly inside (0,1); >= 5 wet values so that scipy's gamma MLE is defined
     return np.where(z, 0.0, wet), shape, scale
 
 
@@ -401,7 +401,7 @@ def oracle(nrng, problems, stats, k):
         model = M.gen_PrecipitationGammaLeftCensoredModel(censoring_threshold=thr, censor_in_ppf=censor)
         sig = {"model": "censored", "censor_in_ppf": censor}
         fit = (shape, 0, scale)
-        if k % 25 == 0 and censor:
+        if k % 25 == 0 and censor and int((data > thr).sum()) >= 10:  # guard: enough non-censored values for the likelihood fit
             fit = quiet(model.fit, data)
             stats["censored_real_fits"] += 1
             if not (np.isfinite(fit[0]) and fit[0] > 0 and fit[2] > 0 and fit[1] == 0):
@@ -469,8 +469,9 @@ def run(tier, res, force_search=False):
         "np.random.uniform(low, high) returns values in [low, high): the draws are captured in-process and handed to the model; theorems are for every draw in that range",
         "the maximum-likelihood / Nelder-Mead fits are outside the model (the model states which data they are given)",
     ]
-    res.assumptions = ["precipitation values are >= 0; the dry fraction lies strictly between 0 and 1",
+    res.assumptions = ["precipitation values are >= 0; the dry fraction lies strictly between 0 and 1; oracle samples have >= 5 wet values (scipy's gamma MLE raises on a single wet value)",
                        "float guard of the round-trip oracle: demanded where 1e-4 <= F(x) <= 1 - 1e-4 (outside, float cancellation in (q - p0)/(1 - p0) and the flat tails of ppf dominate)",
+                       "the real Nelder-Mead fit of the censored model is exercised only on samples with >= 10 values above the threshold (with none the optimiser silently degenerates: shape ~ 1e-15, cdf == 1, ppf nan)",
                        "censored model: at x == threshold exactly the float ppf(cdf(x)) may fall just below the threshold; either outcome is accepted and counted"]
 
     lean_ok = C.lean_phase(res, PROP, GEN, TARGETS)
